@@ -21,6 +21,9 @@ const (
 	DefaultMaxPaths    = 20000 // paths per entry point
 	widenAfter         = 3     // visits of a data-dependent loop head before widening
 	initStepBudget     = 3_000_000
+	joinAfter          = 2 // join mode: loop-head visits explored as they are
+	joinWidenAfter     = 6 // join mode: visits before widening
+	joinResultsAbove   = 3 // join mode: a call with more results returns their join
 )
 
 // Analyzer interprets functions of one loaded configuration.
@@ -30,6 +33,15 @@ type Analyzer struct {
 
 	MaxDepth, UnrollLimit, MaxPaths int
 
+	// Stage B switches (see stageb.go): by-type heap summaries, joining at
+	// loop heads and function returns instead of path enumeration, havoc
+	// instead of failure at calls that leave the analysed scope.
+	heap          *typeHeap
+	objType       map[int]types.Type
+	JoinLoops     bool
+	ExternalHavoc bool
+	notes         map[string]int // soundly over-approximated constructs, counted
+
 	// MergeContexts makes one obligation per (entry point, instruction)
 	// instead of one per (entry point, inlining context, instruction).
 	MergeContexts bool
@@ -37,6 +49,9 @@ type Analyzer struct {
 	// Intercept, when set, may replace the interpretation of a call to a
 	// function with a body (Stage B summarises the field primitives).
 	Intercept func(a *Analyzer, fr *frame, call *ssa.Call, fn *ssa.Function, args []Value, mem *Memory) ([]result, bool)
+
+	// InScope, when set, restricts inlining to the functions it accepts.
+	InScope func(fn *ssa.Function) bool
 
 	objIDs   map[string]int
 	base     map[int]Value // initial contents of package-level variables
@@ -63,7 +78,8 @@ type Analyzer struct {
 // NewAnalyzer creates an analyzer for a loaded configuration.
 func NewAnalyzer(p *load.Program) *Analyzer {
 	a := &Analyzer{P: p, MaxDepth: DefaultMaxDepth, UnrollLimit: DefaultUnrollLimit, MaxPaths: DefaultMaxPaths,
-		objIDs: map[string]int{}, base: map[int]Value{}, initDone: map[*ssa.Package]bool{}, fnInfos: map[*ssa.Function]*fnInfo{}}
+		objIDs: map[string]int{}, base: map[int]Value{}, initDone: map[*ssa.Package]bool{}, fnInfos: map[*ssa.Function]*fnInfo{},
+		objType: map[int]types.Type{}, notes: map[string]int{}}
 	for _, pk := range p.Pkgs {
 		if pk.TypesSizes != nil {
 			a.sizes = pk.TypesSizes
@@ -134,6 +150,8 @@ type frame struct {
 	depth int
 	loops map[*ssa.BasicBlock]*loopRec
 	info  *fnInfo
+
+	sharedLoops bool
 }
 
 type result struct {
@@ -144,6 +162,7 @@ type result struct {
 type snapshot struct {
 	phis []Value
 	mem  *Memory
+	env  map[ssa.Value]Value // join mode: values defined outside the loop
 }
 
 type loopRec struct {
@@ -194,6 +213,10 @@ func (fr *frame) clone() *frame {
 	for k, v := range fr.env {
 		env[k] = v
 	}
+	if fr.sharedLoops {
+		// join mode: all paths of one activation share the explored states
+		return &frame{fn: fr.fn, env: env, ctx: fr.ctx, depth: fr.depth, loops: fr.loops, info: fr.info, sharedLoops: true}
+	}
 	loops := make(map[*ssa.BasicBlock]*loopRec, len(fr.loops))
 	for k, v := range fr.loops {
 		c := *v
@@ -223,7 +246,11 @@ func (a *Analyzer) val(fr *frame, v ssa.Value) Value {
 		if v.Pkg != nil && load.IsModule(v.Pkg.Pkg) {
 			a.ensureInit(v.Pkg)
 		}
-		return &Ptr{Obj: a.objID("global:" + v.String())}
+		id := a.objID("global:" + v.String())
+		if _, ok := a.objType[id]; !ok {
+			a.objType[id] = v.Type().(*types.Pointer).Elem()
+		}
+		return &Ptr{Obj: id}
 	case *ssa.Function:
 		return &Fn{F: v}
 	case *ssa.Builtin:
@@ -269,7 +296,7 @@ func (a *Analyzer) constValue(c *ssa.Const) Value {
 // path that returns normally.
 func (a *Analyzer) callFn(fn *ssa.Function, args, bind []Value, mem *Memory, ctx string, depth int) []result {
 	fr := &frame{fn: fn, env: make(map[ssa.Value]Value, 64), ctx: ctx, depth: depth,
-		loops: map[*ssa.BasicBlock]*loopRec{}, info: a.infoOf(fn)}
+		loops: map[*ssa.BasicBlock]*loopRec{}, info: a.infoOf(fn), sharedLoops: a.JoinLoops}
 	for i, p := range fn.Params {
 		if i < len(args) {
 			fr.env[p] = args[i]
@@ -280,7 +307,16 @@ func (a *Analyzer) callFn(fn *ssa.Function, args, bind []Value, mem *Memory, ctx
 			fr.env[fv] = bind[i]
 		}
 	}
-	return a.run(fr, fn.Blocks[0], nil, 0, mem)
+	rs := a.run(fr, fn.Blocks[0], nil, 0, mem)
+	if a.JoinLoops && len(rs) > joinResultsAbove {
+		// join mode: one joined result per call keeps the analysis polynomial
+		j := rs[0]
+		for _, r := range rs[1:] {
+			j = result{joinMemory(j.mem, r.mem), joinValues(j.ret, r.ret)}
+		}
+		return []result{j}
+	}
+	return rs
 }
 
 // run executes from instruction idx of block b (entered from pred when
@@ -413,7 +449,11 @@ func (a *Analyzer) enterBlock(fr *frame, b, pred *ssa.BasicBlock, mem *Memory) b
 			}
 		}
 	}
-	if fr.info.heads[b] {
+	if fr.info.heads[b] && a.JoinLoops {
+		if !a.enterLoopJoin(fr, b, vals, mem) {
+			return false
+		}
+	} else if fr.info.heads[b] {
 		rec := fr.loops[b]
 		if rec == nil {
 			rec = &loopRec{}
@@ -432,22 +472,100 @@ func (a *Analyzer) enterBlock(fr *frame, b, pred *ssa.BasicBlock, mem *Memory) b
 		if rec.forked && rec.visits > widenAfter && len(rec.seen) > 0 {
 			// data-dependent trip count: widen against the join of the
 			// explored states and explore the widened state instead
-			lim := Itv{new(big.Int).Neg(pow2(63)), pow2m1(64)}
 			prev := rec.seen[len(rec.seen)-1]
 			for i := range vals {
-				vals[i] = widenValue(prev.phis[i], vals[i], lim)
+				vals[i] = widenValue(prev.phis[i], vals[i], widenLimit)
 			}
 			for k, v := range mem.cells {
 				if old, ok := prev.mem.root(k); ok {
-					mem.cells[k] = widenValue(old, v, lim)
+					mem.cells[k] = widenValue(old, v, widenLimit)
 				}
 			}
 		}
-		rec.seen = append(rec.seen, snapshot{append([]Value(nil), vals...), mem.clone()})
+		rec.seen = append(rec.seen, snapshot{phis: append([]Value(nil), vals...), mem: mem.clone()})
 	}
 	for i, phi := range phis {
 		fr.env[phi] = vals[i]
 	}
+	return true
+}
+
+var widenLimit = Itv{new(big.Int).Neg(pow2(63)), pow2m1(64)}
+
+// enterLoopJoin is the loop discipline of join mode (Stage B).  The whole
+// state at the loop head (phis, memory, and the values of this activation
+// defined outside the loop) is compared with the states already explored
+// from this head by any path of the activation; a covered state is pruned.
+// After joinAfter explored states the new state is joined with the last
+// explored one (and widened later on), so the chain of explored states is
+// increasing and finite.
+func (a *Analyzer) enterLoopJoin(fr *frame, b *ssa.BasicBlock, vals []Value, mem *Memory) bool {
+	rec := fr.loops[b]
+	if rec == nil {
+		rec = &loopRec{}
+		fr.loops[b] = rec
+	}
+	body := fr.info.body[b]
+	outside := make(map[ssa.Value]Value, len(fr.env))
+	for v, x := range fr.env {
+		if in, ok := v.(ssa.Instruction); ok && in.Block() != nil && body[in.Block()] {
+			continue // defined inside the loop: dead at the head
+		}
+		outside[v] = x
+	}
+	covered := func(s snapshot) bool {
+		if !leqSnapshot(vals, mem, s) {
+			return false
+		}
+		for v, x := range outside {
+			if y, ok := s.env[v]; ok && !leqValue(x, y) {
+				return false
+			}
+		}
+		return true
+	}
+	for _, s := range rec.seen {
+		if covered(s) {
+			return false
+		}
+	}
+	rec.visits++
+	if rec.visits > a.UnrollLimit {
+		a.undecide(b.Instrs[0], "loop head visited more than %d times without reaching a covered state", a.UnrollLimit)
+		return false
+	}
+	if len(rec.seen) >= joinAfter {
+		prev := rec.seen[len(rec.seen)-1]
+		widen := rec.visits > joinWidenAfter
+		merge := func(old, cur Value) Value {
+			j := joinValues(old, cur)
+			if widen {
+				j = widenValue(old, j, widenLimit)
+			}
+			return j
+		}
+		for i := range vals {
+			vals[i] = merge(prev.phis[i], vals[i])
+		}
+		for k, old := range prev.mem.cells {
+			if cur, ok := mem.root(k); ok {
+				mem.cells[k] = merge(old, cur)
+			} else {
+				mem.cells[k] = old
+			}
+		}
+		for k := range prev.mem.shared {
+			mem.shared[k] = true
+		}
+		for v, old := range prev.env {
+			if cur, ok := outside[v]; ok {
+				m := merge(old, cur)
+				outside[v] = m
+				fr.env[v] = m
+			}
+		}
+	}
+	rec.seen = append(rec.seen, snapshot{phis: append([]Value(nil), vals...), mem: mem.clone(), env: outside})
 	return true
 }
 
